@@ -32,6 +32,8 @@ def verify(d: str, k: str):
     r0 = sh(f"{env} {PY} {demo}", timeout=600)
     out["demo_unchanged_rc"] = r0.returncode
     a = sh(f"git -C {SCR} apply {patch}")
+    if a.returncode:
+        a = sh(f"git -C {SCR} apply --3way {patch} && git -C {SCR} reset -q")
     out["applies"] = a.returncode == 0
     if not out["applies"]:
         out["apply_err"] = a.stderr[-300:]
@@ -54,6 +56,8 @@ def run(patch: str, checks):
         print("refusing: /repo has uncommitted changes", st.stdout)
         return
     a = sh(f"git -C {REPO} apply {patch}")
+    if a.returncode:
+        a = sh(f"git -C {REPO} apply --3way {patch} && git -C {REPO} reset -q")
     if a.returncode:
         print("patch does not apply:", a.stderr)
         return
